@@ -538,9 +538,12 @@ var (
 				out = append(out, s+"."+u)
 			}
 		}
-		return append(out, "n.-", "an.-")
+		return out
 	}()
-	alphaCurated = []string{"-.-", "o.-", "f.-", "a.-", "af.-", "k.-", "-.k", "-.kf", "f.k", "k.k", "af.kf", "b.-", "n.-"}
+	// initform nil lives in a family of its own: on the pinned tree it faults in make-instance,
+	// and mixed with the shared initarg k the fault would come and go with Go map order (S9)
+	alphaNil = []string{"-.-", "o.-", "f.-", "n.-", "an.-"}
+	alphaCurated = []string{"-.-", "o.-", "f.-", "a.-", "af.-", "k.-", "-.k", "-.kf", "f.k", "k.k", "af.kf", "b.-", "bf.-"}
 	alphaSmall   = []string{"-.-", "f.-", "a.-", "af.-", "k.k"}
 	alphaTiny    = []string{"-.-", "f.-", "af.-"}
 	alphaTwo     = []string{"-.-", "f.-"}
@@ -671,6 +674,14 @@ func enumerate(tier string, emit func(string)) {
 		emitP(emit, 2, 1, alphaCurated)
 		emitP(emit, 3, 2, alphaQuick3)
 	}
+	// family N: initform nil
+	emitP(emit, 1, 0, alphaNil)
+	emitP(emit, 2, 1, alphaNil)
+	if thorough {
+		emitP(emit, 3, 2, alphaNil)
+	} else {
+		emitP(emit, 3, 2, []string{"-.-", "f.-", "n.-"})
+	}
 	// family R: one class redefined at any later point of the history
 	if thorough {
 		emitR(emit, 2, 1, alphaSmall, true)
@@ -681,6 +692,7 @@ func enumerate(tier string, emit func(string)) {
 	}
 	// 4 classes: every DAG, every permutation
 	if thorough {
+		emitP(emit, 4, 3, []string{"f.-"})
 		emitP(emit, 4, 3, alphaSmall)
 		emitR(emit, 4, 2, []string{"f.-"}, false)
 		for _, g := range shapes5 {
@@ -690,8 +702,7 @@ func enumerate(tier string, emit func(string)) {
 		}
 	} else {
 		emitP(emit, 4, 3, []string{"f.-"})
-		emitP(emit, 4, 2, alphaTwo)
 	}
 }
 
-var alphaQuick3 = []string{"-.-", "o.-", "f.-", "a.-", "af.-", "k.-", "-.kf", "k.k", "n.-"}
+var alphaQuick3 = []string{"-.-", "o.-", "f.-", "a.-", "af.-", "k.-", "-.kf", "k.k"}
